@@ -129,6 +129,10 @@ func main() {
 		r.Cases("bcast-race", r.Scale(4000, 60000), 1, func(c *vkit.Case) { bcastRace(c) })
 		r.Cases("phases", r.Scale(500, 8000), 1, func(c *vkit.Case) { phases(c) })
 		r.Cases("shared", r.Scale(400, 6000), 1, func(c *vkit.Case) { shared(c) })
+		r.Cases("late-entrant", r.Scale(400, 6000), 1, func(c *vkit.Case) { lateEntrant(c) })
+		r.Cases("bcast-overlap", r.Scale(3000, 40000), 1, func(c *vkit.Case) { bcastOverlap(c) })
+		r.Floor("late-entrant rounds", r.Table("late-entrant", "rounds"), 300)
+		r.Floor("rounds with two overlapping Broadcasts around a waiter's entry", r.Table("bcast-overlap", "rounds"), 2000)
 		r.Floor("multi-phase histories on one cond", r.Table("phases", "histories"), 300)
 		r.Floor("histories with a shared Locker", r.Table("shared", "histories"), 300)
 		r.Floor("lone Signals followed by a wake-up (phases)", r.Table("phases", "lone Signals to waiting goroutines, each followed by a wake-up"), 300)
